@@ -267,19 +267,18 @@ impl PubSubManager {
     }
     
     /// Publish a message to a channel
-    /// Returns list of (connection_id, matching_pattern) for all subscribers
+    /// Returns one (connection_id, matching_pattern) entry per matching subscription:
+    /// a connection subscribed to the channel and to patterns that match it receives one
+    /// `message` and one `pmessage` per pattern, as in Redis
     pub fn publish(&self, channel: &[u8], _message: &[u8]) -> Result<Vec<(u64, Option<Vec<u8>>)>> {
         let mut receivers = Vec::new();
-        let mut seen_connections = HashSet::new();
         
         // Find direct channel subscribers
         {
             let channel_subs = self.channels.lock().unwrap();
             if let Some(subscribers) = channel_subs.get(channel) {
                 for &conn_id in subscribers {
-                    if seen_connections.insert(conn_id) {
-                        receivers.push((conn_id, None));
-                    }
+                    receivers.push((conn_id, None));
                 }
             }
         }
@@ -290,9 +289,7 @@ impl PubSubManager {
             for (pattern, subscribers) in pattern_subs.iter() {
                 if pattern_matches(pattern, channel) {
                     for &conn_id in subscribers {
-                        if seen_connections.insert(conn_id) {
-                            receivers.push((conn_id, Some(pattern.clone())));
-                        }
+                        receivers.push((conn_id, Some(pattern.clone())));
                     }
                 }
             }
